@@ -73,6 +73,65 @@ class Outcome:
         return self.kind
 
 
+def dicts_of_lists(fdef):
+    """local names bound only to empty dict displays whose every stored value is a list by construction: `d[k] = [..]`, `d[k] = [.. for ..]`,
+    `d.setdefault(k, [..])`, and that are never handed to anything that could store something else (no call gets the dict itself, no method
+    other than items / values / keys / get / setdefault / pop is called on it)"""
+    cand = {}
+    for n in ast.walk(fdef):
+        if isinstance(n, ast.Assign) and len(n.targets) == 1 and isinstance(n.targets[0], ast.Name):
+            v = n.value
+            empty = (isinstance(v, ast.Dict) and not v.keys) or (isinstance(v, ast.Call) and isinstance(v.func, ast.Name) and v.func.id == "dict" and not v.args and not v.keywords)
+            nm = n.targets[0].id
+            cand[nm] = cand.get(nm, True) and empty
+    names = {k for k, ok in cand.items() if ok}
+    if not names:
+        return set()
+    listy = lambda v: isinstance(v, (ast.List, ast.ListComp)) or (isinstance(v, ast.Call) and isinstance(v.func, ast.Name) and v.func.id == "list")
+    bad = set()
+    parents = {}
+    for n in ast.walk(fdef):
+        for c in ast.iter_child_nodes(n):
+            parents[id(c)] = n
+    for n in ast.walk(fdef):
+        if not (isinstance(n, ast.Name) and n.id in names):
+            continue
+        par = parents.get(id(n))
+        if isinstance(n.ctx, ast.Store):
+            if not (isinstance(par, ast.Assign) and par.targets[0] is n):
+                bad.add(n.id)                                    # bound by a loop / with / tuple assignment
+            continue
+        if isinstance(n.ctx, ast.Del):
+            bad.add(n.id)
+            continue
+        if isinstance(par, ast.Subscript) and par.value is n:
+            gp = parents.get(id(par))
+            if isinstance(par.ctx, ast.Store):
+                if isinstance(gp, ast.Assign) and listy(gp.value):
+                    continue
+                if isinstance(gp, ast.AugAssign) and isinstance(gp.op, ast.Add):
+                    continue
+                bad.add(n.id)
+            continue                                             # d[k] read (also d[k].append(..), d[k][i] = ..) or del d[k]
+        if isinstance(par, ast.Attribute) and par.value is n:
+            gp = parents.get(id(par))
+            if isinstance(gp, ast.Call) and gp.func is par:
+                if par.attr in ("items", "values", "keys", "get", "pop", "clear", "copy"):
+                    continue
+                if par.attr == "setdefault" and len(gp.args) == 2 and listy(gp.args[1]) and not gp.keywords:
+                    continue
+            bad.add(n.id)
+            continue
+        if isinstance(par, ast.Compare) and n in par.comparators and all(isinstance(o, (ast.In, ast.NotIn)) for o in par.ops):
+            continue                                             # k in d
+        if isinstance(par, ast.Call) and isinstance(par.func, ast.Name) and par.func.id in ("len", "sorted", "list", "iter", "bool") and par.args == [n]:
+            continue
+        if isinstance(par, (ast.For, ast.comprehension)) and par.iter is n:
+            continue
+        bad.add(n.id)                                            # handed to a call, returned, stored somewhere, ...
+    return names - bad
+
+
 class LoopRecord:
     def __init__(self, uid):
         self.uid = uid
@@ -153,6 +212,7 @@ class Exec:
         st = st.copy()
         st.env = dict(args)
         self.fn_locals = {n.id for n in ast.walk(fdef) if isinstance(n, ast.Name) and isinstance(n.ctx, ast.Store)} - set(self.ctx.cur_globals)
+        self.ctx.dict_of_lists = dicts_of_lists(fdef) - set(args)
         outs = []
         self.ret_sink = outs
         self.exc_sinks.append(outs)
@@ -1458,6 +1518,12 @@ class Exec:
         rec.elem = fresh("elem%d" % rec.uid)
         q.conds.append(pred("elem_of", xs, rec.elem))
         q.conds.extend(self.ctx.elem_facts(xs, rec.elem))
+        # elements of a local dict all of whose values are lists by construction (dicts_of_lists): `for k, v in d.items()` binds v to a list
+        org = getattr(s, "_pyvc_origin", s)
+        it = org.iter
+        if isinstance(it, ast.Call) and isinstance(it.func, ast.Attribute) and it.func.attr in ("items", "values") and not it.args \
+           and isinstance(it.func.value, ast.Name) and it.func.value.id in getattr(self.ctx, "dict_of_lists", ()):
+            q.conds.append(pred("is_list", app("getitem", rec.elem, IntV(1))))
         rec.body = self.run_body(s, rec.elem, q)
         if key is not None:
             cache[key] = rec
